@@ -852,3 +852,64 @@ Lemma demo_run :
   dims_ok (dobserve (dfinal repaired demo_ops w_init)) = true /\
   offset_present (dfinal repaired (firstn 3 demo_ops) w_init) 3 = true.
 Proof. vm_compute. repeat split; reflexivity. Qed.
+
+(* ------------------------------------------------------------------------------------------ *)
+(** * The statements over all histories from the empty array *)
+
+Theorem dims_gap_free : forall b ops t rank len fs,
+  let s := dfinal b ops (dinit t rank len fs) in keys (dims s) = zrange (count s).
+Proof. intros. apply gap_free_zrange. apply gap_free_run. apply init_gf. Qed.
+
+(** dimensions() lists exactly the descriptors 1..n with their kinds; nothing lives at 0 or n+1 *)
+Theorem dims_answer : forall b ops t rank len fs,
+  let s := dfinal b ops (dinit t rank len fs) in
+  snd (dstep b Dims s) = Ok (ADims (map (fun p => (fst p, kind_of (snd p))) (dims s))) /\
+  snd (dstep b (GetDim 0) s) = Ok (AKind None) /\
+  snd (dstep b (GetDim (count s + 1)) s) = Ok (AKind None) /\
+  snd (dstep b Count s) = Ok (ACount (zlen (dims s))).
+Proof.
+  intros. assert (H : gap_free (dims s)) by (apply gap_free_run; apply init_gf).
+  cbn [dstep]. unfold all_dims, get_dim. cbn [snd]. repeat split.
+  - do 2 f_equal. unfold count. pose proof H as G. apply gap_free_zrange in G. rewrite <- G. now apply (dims_list_gf _ 1).
+  - now rewrite lookup_gf, s_get_zero.
+  - rewrite lookup_gf by assumption. unfold count. rewrite <- (zlen_map snd (dims s)). now rewrite s_get_next.
+Qed.
+
+Theorem history_refines : forall ops t rank len fs,
+  abs (fst (drun repaired ops (dinit t rank len fs))) = fst (sp_run ops (sinit t rank len fs)) /\
+  map forget (snd (drun repaired ops (dinit t rank len fs))) = snd (sp_run ops (sinit t rank len fs)).
+Proof. intros. apply (refines_run ops (dinit t rank len fs)). apply init_gf. Qed.
+
+Theorem ticks_sorted_inv : forall ops t rank len fs i ticks u l,
+  lookup i (dims (dfinal repaired ops (dinit t rank len fs))) = Some (DRange ticks u l) -> ascending ticks = true.
+Proof.
+  intros ops t rank len fs i ticks u l L.
+  exact (lookup_ok _ _ _ (desc_ok_run ops _ (init_gf t rank len fs) (init_ok t rank len fs)) L).
+Qed.
+
+Theorem interval_positive_inv : forall ops t rank len fs i x off u l,
+  lookup i (dims (dfinal repaired ops (dinit t rank len fs))) = Some (DSampled x off u l) -> fgt x fzero = true.
+Proof.
+  intros ops t rank len fs i x off u l L.
+  exact (lookup_ok _ _ _ (desc_ok_run ops _ (init_gf t rank len fs) (init_ok t rank len fs)) L).
+Qed.
+
+Theorem observation_ok : forall ops t rank len fs, (1 <= rank)%nat ->
+  dims_ok (dobserve (dfinal repaired ops (dinit t rank len fs))) = true.
+Proof. intros. apply observation_ok_run; [apply init_gf|apply init_ok|assumption]. Qed.
+
+Theorem delete_leaves_none_run : forall b ops t rank len fs,
+  let s := dfinal b ops (dinit t rank len fs) in
+  ro s = false ->
+  snd (dstep b DeleteDims s) = Ok (ABool true) /\ dims (fst (dstep b DeleteDims s)) = [] /\
+  o_count (dobserve (fst (dstep b DeleteDims s))) = 0 /\ o_dims (dobserve (fst (dstep b DeleteDims s))) = [].
+Proof.
+  intros b ops t rank len fs s R.
+  rewrite (delete_leaves_none b s) by (try assumption; apply gap_free_run; apply init_gf).
+  repeat split.
+Qed.
+
+Theorem rejected_no_trace_run : forall ops t rank len fs o e,
+  let s := dfinal repaired ops (dinit t rank len fs) in
+  dimension_op o -> snd (dstep repaired o s) = Err e -> fst (dstep repaired o s) = s.
+Proof. intros. eapply rejected_no_trace; eauto. apply gap_free_run. apply init_gf. Qed.
